@@ -1,5 +1,83 @@
 import QipVerif.Util.Proto
-/-! Driver stub (to be filled in by the owner of this model). -/
-open QipVerif.Proto
-def step (_line : String) : String := "bad-op"
+import QipVerif.Model.Route
+/-! Driver for the routing model (C07).
+
+* `route n=N setup=linear|circular|<anything else> [variant=fixed|old|xyz] gates=G;G;…`
+* `adjacent [variant=…] gates=G;G;…`
+
+A gate is `NAME/controls/targets/arg/extra` (comma-separated naturals, may be empty);
+`NAME` is one of the names the router distinguishes, `o<k>` for any other gate, `m<k>` for a
+`Measurement`.  `variant=wxyz` with bits for (modFix, roleFix, argFix, measFix); default `fixed`.
+Answer: `ok G;G;…` | `err shape` | `err notimpl` | `err value` | `bad-op`.
+-/
+open QipVerif QipVerif.Proto QipVerif.Route
+
+def parseName (s : String) : Option GName :=
+  match s with
+  | "CNOT" => some .CNOT | "CSIGN" => some .CSIGN | "SWAP" => some .SWAP | "ISWAP" => some .ISWAP
+  | "SQRTISWAP" => some .SQRTISWAP | "SQRTSWAP" => some .SQRTSWAP | "BERKELEY" => some .BERKELEY
+  | "SWAPalpha" => some .SWAPalpha
+  | _ =>
+    if s.startsWith "o" then ((s.drop 1).toString.toNat?).map GName.other
+    else if s.startsWith "m" then ((s.drop 1).toString.toNat?).map GName.meas
+    else none
+
+def showName : GName → String
+  | .CNOT => "CNOT" | .CSIGN => "CSIGN" | .SWAP => "SWAP" | .ISWAP => "ISWAP"
+  | .SQRTISWAP => "SQRTISWAP" | .SQRTSWAP => "SQRTSWAP" | .BERKELEY => "BERKELEY"
+  | .SWAPalpha => "SWAPalpha" | .other k => s!"o{k}" | .meas k => s!"m{k}"
+
+def parseGate (s : String) : Option Gate :=
+  match s.splitOn "/" with
+  | [nm, cs, ts, a, x] => do
+    let nm ← parseName nm
+    let cs ← natList? cs
+    let ts ← natList? ts
+    let a ← a.toNat?
+    let x ← x.toNat?
+    pure ⟨nm, cs, ts, a, x⟩
+  | _ => none
+
+def showGate (g : Gate) : String :=
+  s!"{showName g.name}/{showNats g.controls}/{showNats g.targets}/{g.arg}/{g.extra}"
+
+def parseGates (fs : List String) : Option (List Gate) :=
+  match field? fs "gates" with
+  | none => none
+  | some s => (splitNE s ";").mapM parseGate
+
+def parseVariant (fs : List String) : Option Variant :=
+  match field? fs "variant" with
+  | none => some Variant.fixed
+  | some "fixed" => some Variant.fixed
+  | some "old" => some Variant.old
+  | some s =>
+    match s.toList with
+    | [a, b, c, d] =>
+      if [a, b, c, d].all (fun ch => ch = '0' || ch = '1') then some ⟨a = '1', b = '1', c = '1', d = '1'⟩
+      else none
+    | _ => none
+
+def parseSetup (s : String) : Setup :=
+  if s = "linear" then .linear else if s = "circular" then .circular else .other
+
+def answer : Except Err (List Gate) → String
+  | .ok gs => "ok " ++ ";".intercalate (gs.map showGate)
+  | .error .shape => "err shape"
+  | .error .notImplemented => "err notimpl"
+  | .error .value => "err value"
+
+def step (line : String) : String :=
+  let fs := fields line
+  match fs.head? with
+  | some "route" =>
+    match fNat? fs "n", fStr? fs "setup", parseVariant fs, parseGates fs with
+    | some n, some st, some v, some gs => answer (toChainV v n (parseSetup st) gs)
+    | _, _, _, _ => "bad-op"
+  | some "adjacent" =>
+    match parseVariant fs, parseGates fs with
+    | some v, some gs => answer (adjacentGatesV v gs)
+    | _, _ => "bad-op"
+  | _ => "bad-op"
+
 def main : IO Unit := serve step
